@@ -18,3 +18,14 @@ Definition arr2 := nat -> nat -> Z.
 Definition zeros2 : arr2 := fun _ _ => 0%Z.
 Definition upd2 (a : arr2) (i j : nat) (v : Z) : arr2 := fun r s => if (Nat.eqb r i && Nat.eqb s j)%bool then v else a r s.
 Definition get_tup (a : arr2) (tup : list nat) : Z := match tup with [r; s] => a r s | _ => 0%Z end.
+
+(* arrays indexed by index tuples (temp = np.zeros(v.shape); temp[tup] = value): total functions of the tuple *)
+Fixpoint tup_eqb (a b : list nat) : bool :=
+  match a, b with
+  | [], [] => true
+  | x :: a', y :: b' => (Nat.eqb x y && tup_eqb a' b')%bool
+  | _, _ => false
+  end.
+Definition arrT := list nat -> Z.
+Definition zerosT : arrT := fun _ => 0%Z.
+Definition updT (a : arrT) (tup : list nat) (v : Z) : arrT := fun t => if tup_eqb t tup then v else a t.
